@@ -2,6 +2,7 @@ package props
 
 import (
 	"fmt"
+	"math"
 	"strings"
 
 	"github.com/osteele/liquid"
@@ -273,6 +274,87 @@ func runC10(c *core.Ctx) {
 				}
 			}
 		}
+	}
+	// --- case over integers of every width and signedness: the when clause that equals the subject by numeric value ---
+	if c.Shard == 5%c.NShards && c.Begin("case-integer-widths") {
+		type iv struct {
+			g any
+			s string
+		}
+		vals := []iv{{uint64(math.MaxUint64), "18446744073709551615"}, {uint64(1) << 63, "9223372036854775808"}, {uint8(255), "255"}, {uint(5), "5"}, {int8(-1), "-1"}, {int64(-1), "-1"}, {int64(math.MinInt64), "-9223372036854775808"},
+			{5, "5"}, {int16(255), "255"}, {gen.NInt(5), "5"}, {uintptr(255), "255"}, {-1, "-1"}}
+		for _, sub := range vals {
+			for _, w1 := range vals {
+				for _, w2 := range vals {
+					want := "else"
+					switch {
+					case sub.s == w1.s:
+						want = "first"
+					case sub.s == w2.s:
+						want = "second"
+					}
+					src := "{% case s %}{% when a %}first{% when b %}second{% else %}else{% endcase %}|{% case s %}{% when a, b %}listed{% endcase %}"
+					w := want + "|"
+					if want != "else" {
+						w += "listed"
+					}
+					res := core.Run(e, src, map[string]any{"s": sub.g, "a": w1.g, "b": w2.g})
+					c.Eval(1)
+					c.Obs("case_integer_width_cases", 1)
+					c.Distinct("caseint", gen.Describe(sub.g), gen.Describe(w1.g), gen.Describe(w2.g))
+					if !res.OK() || res.Out != w {
+						c.Violate("case|integer-widths", "case must select the first when clause whose value equals the subject by numeric value, whatever the integer widths and signedness",
+							map[string]any{"subject": gen.Describe(sub.g), "when_1": gen.Describe(w1.g), "when_2": gen.Describe(w2.g), "expected": w, "observed": res.Brief()})
+					}
+				}
+			}
+		}
+	}
+	// --- a selected branch that renders something and then leaves the enclosing loop: what it rendered stays ----------
+	for i := 0; i < c.Pick(300, 6000); i++ {
+		idx++
+		if !c.Mine(idx) {
+			continue
+		}
+		r := c.Rand(idx, 79)
+		at := r.Range(1, 4)
+		ctl := []string{"break", "continue"}[r.Intn(2)]
+		shape := r.Intn(5)
+		var branch string
+		mark := "[" + ctl + " at {{ i }}]"
+		switch shape {
+		case 0:
+			branch = "{% if i == " + fmt.Sprint(at) + " %}" + mark + "{% " + ctl + " %}{% endif %}"
+		case 1:
+			branch = "{% unless i != " + fmt.Sprint(at) + " %}" + mark + "{% " + ctl + " %}{% else %}-{% endunless %}"
+		case 2:
+			branch = "{% if i > 9 %}never{% elsif i == " + fmt.Sprint(at) + " %}" + mark + "{% " + ctl + " %}after{% else %}+{% endif %}"
+		case 3:
+			branch = "{% case i %}{% when 9 %}never{% when " + fmt.Sprint(at) + " %}" + mark + "{% " + ctl + " %}{% else %}={% endcase %}"
+		default:
+			branch = "{% if i < 9 %}{% if i == " + fmt.Sprint(at) + " %}{% capture cap %}c{{ i }}{% endcapture %}" + mark + "{{ cap }}{% " + ctl + " %}{% endif %}~{% endif %}"
+		}
+		src := "{% for i in (1..4) %}" + branch + "{{ i }};{% endfor %}"
+		if !c.Begin("branch-then-interrupt:" + src) {
+			continue
+		}
+		want := ""
+		for k := 1; k <= 4; k++ {
+			if k == at {
+				want += fmt.Sprintf("[%s at %d]", ctl, k)
+				if shape == 4 {
+					want += fmt.Sprintf("c%d", k)
+				}
+				if ctl == "break" {
+					break
+				}
+				continue
+			}
+			want += []string{"", "-", "+", "=", "~"}[shape] + fmt.Sprintf("%d;", k)
+		}
+		expectOut(c, e, src, nil, want, "branch-then-interrupt", "a conditional renders the selected branch - also when that branch ends with break or continue, what it rendered before is output", nil)
+		c.Obs("branch_then_interrupt_cases", 1)
+		c.Distinct("bti", src)
 	}
 	// --- duality and random programs --------------------------------------------
 	m := &ref.Model{}
